@@ -1357,7 +1357,8 @@ def run(tier, only=None):
     w10(rep)
     w11(rep)
     w12(rep, f_foam)
-    from . import c19_float
+    from . import c19_float, immed
+    immed.report(rep, "W14", units=["foam.c", "sexpr.c"], floor=2)      # integers of the text form (.fm) read back in full
     c19_float.sentinels(rep, "W13")      # the float literals of a saved unit: reserved exponents of the portable form
     f_sefo = common.extract("sefo.c", all_trees=True)
     w6(rep, f_sefo, widths)
